@@ -19,6 +19,7 @@ Conventions
 * A primitive is identified inside a compound by `oid` (object identity: dict keys of `stop` are the
   function objects) and `did` (its doc string: the info string is a SET of doc strings).
 -/
+import MysticVerif.Model.Collapse
 
 namespace MysticVerif.Term
 
@@ -106,6 +107,10 @@ inductive Prim (R : Type) where
   | popspread (tol : R)                                           -- l.344
   | gradnorm (tol : R)                                            -- l.363, `norm = inf`, gradient supplied
   | gradnormP (tol : R) (norm : Norm R) (eps : R)                 -- l.363-383, any `norm`; gradient or `approx_fprime`
+  /-- l.504-529 `CollapseAt(target, tolerance, generations, mask)`; `tols`: a scalar tolerance is the one-element list -/
+  | collapseAt (tgt : Clps.Target R) (tols : List R) (gens : Int) (mask : Clps.SetMask)
+  /-- l.531-554 `CollapseAs(offset, tolerance, generations, mask)` -/
+  | collapseAs (offset : Bool) (tol : R) (gens : Int) (mask : Clps.SetMask)
   | evallimits (gens evals : Option Int)                          -- l.386
   | timelimits (seconds : R) (system : Option Bool) (s0 s1 s2 : R) -- l.413, `start` for the 3 timers
   | interrupt                                                     -- l.439
@@ -204,6 +209,34 @@ def gnormOf (v : View R) (n : Norm R) (eps : R) : Except Err R :=
   | .error e => .error e
   | .ok g => lnorm n g
 
+/-- exceptions of the collapse detectors, as exceptions of the condition -/
+def ofClpsErr : Clps.Err → Err
+  | .value => .value
+  | .type => .type
+  | .index => .index
+
+/-- `collapsed`, the detector's result as the condition reports it after `' at '` (l.524-525 / l.549-550): a sorted
+list of index tuples (`{0, 2}` is `[[0], [2]]`, `{(0, 1)}` is `[[0, 1]]`); only computed once the history is longer
+than `generations` (l.520-521) -/
+def collapsedOf (v : View R) : Prim R → Option (Except Err (List (List Nat)))
+  | .collapseAt tgt tols g mask =>
+      if v.hist.length = 0 then none else if (v.hist.length : Int) ≤ g then none
+      else some (match Clps.collapseAt v.steps tgt tols (some g) mask with
+        | .ok l => .ok (l.map (fun i => [i]))
+        | .error e => .error (ofClpsErr e))
+  | .collapseAs off tol g mask =>
+      if v.hist.length = 0 then none else if (v.hist.length : Int) ≤ g then none
+      else some (match Clps.collapseAs v.steps off tol (some g) mask with
+        | .ok l => .ok (l.map (fun p => [p.1, p.2]))
+        | .error e => .error (ofClpsErr e))
+  | _ => none
+
+/-- the text after `' at '` in the info string of a satisfied Collapse* condition (`[]`: nothing reported) -/
+def Prim.payload (v : View R) (p : Prim R) : List (List Nat) :=
+  match collapsedOf v p with
+  | some (.ok l) => l
+  | _ => []
+
 /-- the exception a primitive raises on a malformed view (`none`: it returns) -/
 def Prim.err (v : View R) : Prim R → Option Err
   | .cog _ g => if v.hist.length = 0 then none else if (v.hist.length : Int) ≤ gensOf g then none
@@ -229,6 +262,12 @@ def Prim.err (v : View R) : Prim R → Option Err
   | .gradnormP _ n eps => match gnormOf v n eps with
       | .error e => some e
       | .ok _ => none
+  | .collapseAt tgt tols g mask => match collapsedOf v (.collapseAt tgt tols g mask) with
+      | some (.error e) => some e
+      | _ => none
+  | .collapseAs off tol g mask => match collapsedOf v (.collapseAs off tol g mask) with
+      | some (.error e) => some e
+      | _ => none
   | _ => none
 
 /-- does `a <= b` hold for an optional left side (`none` never arises when `Prim.err = none`) -/
@@ -303,6 +342,10 @@ def Prim.test (v : View R) : Prim R → Bool
   | .popspread tol => popspreadAll tol v.pop                              -- l.358
   | .gradnorm tol => leOpt (npMax? (v.grad.map absR)) tol                 -- l.380-381
   | .gradnormP tol n eps => leExc (gnormOf v n eps) tol                   -- l.380-381
+  | .collapseAt tgt tols g mask =>                                        -- l.518-527: `if collapsed:`
+      !(Prim.payload v (.collapseAt tgt tols g mask)).isEmpty
+  | .collapseAs off tol g mask =>                                         -- l.543-552
+      !(Prim.payload v (.collapseAs off tol g mask)).isEmpty
   | .evallimits gens evals => geLim v.fcalls evals || geLim v.gens gens   -- l.404
   | .timelimits seconds system s0 s1 s2 =>                                -- l.422-433
       match system with
@@ -534,9 +577,27 @@ end Den
 
 /-! ### introspection (`state`, `type`, l.30-58) and rebuilding -/
 
+/-- insertion into the dict `_state` keyed by DOC STRING (l.45 `_state[termdoc] = eval(kwds)`; `update` l.41): a doc
+already present keeps its place -/
+def docInsert (ks : List Nat) (d : Nat) : List Nat := if ks.contains d then ks else ks ++ [d]
+
+mutual
+/-- keys of `state(condition)` in insertion order, as doc ids: the walk over the tree (l.34-45) -/
+def Cond.stateKeysAux : Cond R → List Nat → List Nat
+  | .prim _ d _, ks => docInsert ks d
+  | .node _ cs, ks => Cond.stateKeysL cs ks
+def Cond.stateKeysL : List (Cond R) → List Nat → List Nat
+  | [], ks => ks
+  | c :: cs, ks => Cond.stateKeysL cs (Cond.stateKeysAux c ks)
+end
+
+/-- NOTE the recursion `_state.update(state(term))` (l.41) builds the sub-dict first and then merges it: the order of
+first occurrences is the same as threading one dict through the walk -/
+def Cond.stateKeys (c : Cond R) : List Nat := Cond.stateKeysAux c []
+
 inductive PKind where
   | vtr | cog | ncog | crt | solimp | nct | vtrcog | popspread | gradnorm | evallimits | timelimits | interrupt
-  | gradnormP
+  | gradnormP | collapseAt | collapseAs
   deriving DecidableEq, Repr
 
 /-- a keyword value as it appears in the doc dict -/
@@ -546,12 +607,17 @@ inductive SVal (R : Type) where
   | oflt (r : Option R)       -- `fval`
   | obool (b : Option Bool)   -- `system`
   | norm (n : Norm R)         -- `norm`
+  | tols (l : List R)         -- `tolerance` of CollapseAt (scalar or list)
+  | target (t : Clps.Target R)
+  | smask (m : Clps.SetMask)  -- `mask`
+  | bool (b : Bool)           -- `offset`
+  | gint (i : Int)            -- `generations` of a Collapse* condition (must be an int: `lg <= generations`)
 
 /-- `termination.type(c)`: the factory, found by name -/
 def Prim.kind : Prim R → PKind
   | .vtr .. => .vtr | .cog .. => .cog | .ncog .. => .ncog | .crt .. => .crt | .solimp .. => .solimp
   | .nct .. => .nct | .vtrcog .. => .vtrcog | .popspread .. => .popspread | .gradnorm .. => .gradnorm
-  | .gradnormP .. => .gradnormP
+  | .gradnormP .. => .gradnormP | .collapseAt .. => .collapseAt | .collapseAs .. => .collapseAs
   | .evallimits .. => .evallimits | .timelimits .. => .timelimits | .interrupt => .interrupt
 
 /-- `termination.state(c)[doc]`: the keyword dict in the doc string, in the order the code writes it -/
@@ -566,6 +632,10 @@ def Prim.state : Prim R → List (String × SVal R)
   | .popspread tol => [("tolerance", .num tol)]
   | .gradnorm tol => [("tolerance", .num tol)]
   | .gradnormP tol n _ => [("tolerance", .num tol), ("norm", .norm n)]
+  | .collapseAt tgt tols g mask =>                                        -- l.512-513
+      [("tolerance", .tols tols), ("generations", .gint g), ("target", .target tgt), ("mask", .smask mask)]
+  | .collapseAs off tol g mask =>                                         -- l.537-538
+      [("tolerance", .num tol), ("generations", .gint g), ("offset", .bool off), ("mask", .smask mask)]
   | .evallimits g e => [("generations", .int g), ("evaluations", .int e)]
   | .timelimits s sys _ _ _ => [("seconds", .num s), ("system", .obool sys)]
   | .interrupt => []
@@ -580,6 +650,16 @@ def kwOBool (kw : List (String × SVal R)) (k : String) : Option (Option Bool) :
   match kw.lookup k with | some (.obool b) => some b | _ => none
 def kwNorm (kw : List (String × SVal R)) (k : String) : Option (Norm R) :=
   match kw.lookup k with | some (.norm n) => some n | _ => none
+def kwTols (kw : List (String × SVal R)) (k : String) : Option (List R) :=
+  match kw.lookup k with | some (.tols l) => some l | _ => none
+def kwTarget (kw : List (String × SVal R)) (k : String) : Option (Clps.Target R) :=
+  match kw.lookup k with | some (.target t) => some t | _ => none
+def kwSMask (kw : List (String × SVal R)) (k : String) : Option Clps.SetMask :=
+  match kw.lookup k with | some (.smask m) => some m | _ => none
+def kwBool (kw : List (String × SVal R)) (k : String) : Option Bool :=
+  match kw.lookup k with | some (.bool b) => some b | _ => none
+def kwGInt (kw : List (String × SVal R)) (k : String) : Option Int :=
+  match kw.lookup k with | some (.gint i) => some i | _ => none
 
 /-- `factory(**kwds)`: keyword call of the factory named by `kind` (all keywords supplied, as `state` reports
 them); `eta` is the factory's own constant, `(s0,s1,s2)` the timer readings at construction -/
@@ -595,6 +675,10 @@ def Prim.make (k : PKind) (kw : List (String × SVal R)) (eta s0 s1 s2 : R) : Op
   | .popspread => do pure (.popspread (← kwNum kw "tolerance"))
   | .gradnorm => do pure (.gradnorm (← kwNum kw "tolerance"))
   | .gradnormP => do pure (.gradnormP (← kwNum kw "tolerance") (← kwNorm kw "norm") eta)
+  | .collapseAt => do pure (.collapseAt (← kwTarget kw "target") (← kwTols kw "tolerance") (← kwGInt kw "generations")
+      (← kwSMask kw "mask"))
+  | .collapseAs => do pure (.collapseAs (← kwBool kw "offset") (← kwNum kw "tolerance") (← kwGInt kw "generations")
+      (← kwSMask kw "mask"))
   | .evallimits => do pure (.evallimits (← kwInt kw "generations") (← kwInt kw "evaluations"))
   | .timelimits => do pure (.timelimits (← kwNum kw "seconds") (← kwOBool kw "system") s0 s1 s2)
   | .interrupt => some .interrupt
